@@ -258,6 +258,13 @@ def fact_str(f):
     return "%s %s %s" % (f[0], f[1], f[2])
 
 
+def _root_line(fn, node):
+    """line at which the code of `node` sits in the function as written: for a block that was inlined from a helper (engine/inline.py)
+    the line of the call it replaced, so that moved code keeps its place in the order of the sites"""
+    at = fn.blocks[node[0]].get("inl_at")
+    return at if at else fn.line(node)
+
+
 def _entry_missing(fx, fn, fs, p, ent):
     nodes = [p["node"]]
     afs, afn = fs, fn
@@ -293,7 +300,7 @@ def r19_1(ctx, fx, seen):
         ps = panics.panic_sites(fn)
         # ordinals follow the source: sites are numbered by line (then by position in the CFG), so that a block which was moved
         # into a helper defined in the same order - or whose basic blocks come out in another order - keeps its numbers
-        ps = sorted(ps, key=lambda p_: (fn.line(p_["node"]), p_["node"]))
+        ps = sorted(ps, key=lambda p_: (_root_line(fn, p_["node"]), fn.line(p_["node"]), p_["node"]))
         if not ps:
             continue
         ctx.bodies.add((fx.cfg, k))
@@ -427,7 +434,7 @@ def auto_bounded(fn, o, depth=0):
 def r19_2(ctx, fx, seen):
     n = 0
     for k, fn in sorted(seen.items()):
-        al = sorted(panics.alloc_sites(fn), key=lambda c_: (fn.line(c_.node), c_.node))
+        al = sorted(panics.alloc_sites(fn), key=lambda c_: (_root_line(fn, c_.node), fn.line(c_.node), c_.node))
         if not al:
             continue
         fs = k6.Facts6(fn)
@@ -479,16 +486,25 @@ def r19_2(ctx, fx, seen):
                 ok = pr is not None and bool(re.search(r"cmp::min$|Ord>?::min$", pr.name)) and \
                     any(any(re.search(ent["min_with"], x) for x in guards.rootstrs(fn, a) if x.startswith("const:")) for a in pr.args)
                 why += " (size produced by %s)" % (pr.name if pr is not None else None)
-            missing = []
-            if ent.get("need"):
+            def need_missing(e_):
                 cut = set()
-                if ent.get("unless_none"):
+                if e_.get("unless_none"):
                     for sw, pd in fs.discrs():
-                        if re.search(ent["unless_none"], pd):
+                        if re.search(e_["unless_none"], pd):
                             for lab in fn.variant_edges(sw, "None"):
                                 cut.add((sw[0], lab))
                 dom = dominating_with_cut(fn, fs, c.node, cut)
-                missing += [fact_str(x) for x in missing_facts(ent["need"], dom, fn)]
+                return [fact_str(x) for x in missing_facts(e_["need"], dom, fn)]
+            missing = []
+            if ent.get("need"):
+                missing = need_missing(ent)
+                if missing:
+                    # the ordinal of an allocation shifts when the block it is in moves (a helper defined above its caller): another
+                    # listed allocation of this function and constructor whose facts hold here is the one meant
+                    for k2, e2 in ALLOC_TABLE.items():
+                        if k2 != key and k2.rsplit("#", 1)[0] == key.rsplit("#", 1)[0] and e2.get("need") and not e2.get("type") and not e2.get("min_with") and not need_missing(e2):
+                            missing, why = [], e2.get("why", "") + " (entry %s, ordinal shifted)" % k2
+                            break
                 ok = ok and not missing
             ctx.ob("R19.2", key, ok, site=fn.site(c.node), cfg=fx.cfg,
                    detail="size `%s`: %s%s" % (sdesc[:50], why, (" ; MISSING: %s" % missing) if missing else ""))
@@ -536,7 +552,7 @@ def r19_2b(ctx, fx, seen):
     n = 0
     for k, fn in sorted(seen.items()):
         gs = [c for c in fn.calls(GROW_RX) if not panics.in_log_macro(c.ex)]
-        gs = sorted([c for c in gs if c.node in fn.reach([c.node], after=True)], key=lambda c_: (fn.line(c_.node), c_.node))
+        gs = sorted([c for c in gs if c.node in fn.reach([c.node], after=True)], key=lambda c_: (_root_line(fn, c_.node), fn.line(c_.node), c_.node))
         if not gs:
             continue
         fs = k6.Facts6(fn)
